@@ -351,15 +351,15 @@ def _thresh(g, scale):
     """bitmap-level version of kernthresh: results landing exactly on the array/bitmap threshold, then serialized,
     validated and round-tripped (C01 / C05 / C09 / C14)"""
     r = g.r
-    for _ in range(int(10 * scale)):
+    for it in range(int(8 * scale)):
         T, R, D, cases = thresh_cases(g)
         key = g.key()
         for op, a, b in cases:
-            for ka in ("A", "B", "R"):
+            # every pairing of kinds (the first rounds sample the argument's kind, then all of them)
+            for ka, kb in [(ka, kb) for ka in ("A", "B", "R") for kb in ("A", "B", "R")]:
                 ca = wf_render(g, a, ka)
                 if ca is None:
                     continue
-                kb = r.choice(["A", "B", "R"])
                 cb = wf_render(g, b, kb)
                 if cb is None:
                     continue
